@@ -345,6 +345,7 @@ func caseC08(t TB, prog *Program) {
 				st.Add("histories_accepted_by_porcupine", 1)
 			}
 		}
+		finalConsistency(e, db)
 		e.Teardown()
 		st.Add("executions", 1)
 	}
